@@ -12,7 +12,6 @@ import (
 	"fmt"
 	"os"
 	"path/filepath"
-	"runtime/debug"
 	"sort"
 	"testing"
 
@@ -26,7 +25,6 @@ import (
 const findingLocate = "C06-locate-last-large-row"
 
 func TestMain(m *testing.M) {
-	debug.SetGCPercent(400) // the code under test allocates 14 x 1 MiB per rebuild; fewer GC cycles, same behaviour
 	_ = flag.Set("logtostderr", "true") // the seaweedfs glog fork would otherwise also create log files in /tmp
 	vlib.Rule("C06: (a) scaled block sizes (large,small,buffer) through the real encoder: .dat sizes on/around every large-row and small-row boundary (bounded-exhaustive: every size 0..3*10*large+2*10*small) and rapid-drawn sizes/contents; every 8-aligned needle-like interval (sizes 1..3*small and to-end-of-file) is read back through LocateData(10*shardSize)+ToShardIdAndOffset; up to 4 shard files are deleted and regenerated. (b) real volumes (random writes/overwrites/deletes, <=3 MiB, some 10-11 MiB) encoded with WriteEcFiles, mounted in a Store, every needle read with Store.ReadEcShardNeedle, shards rebuilt with RebuildEcFiles, decoded with FindDatFileSize+WriteDatFile+WriteIdxFileFromEcIndex and re-mounted. Non-trivial = .dat size within 10*small of a large-row boundary, or a checked interval/needle that crosses a block boundary. Distinct = distinct canonical description (sizes, seeds, lost shards, ops).")
 	vlib.Assume("klauspost/reedsolomon is trusted for the parity arithmetic (the check is that rebuilt files equal the originally written ones).")
